@@ -4,7 +4,7 @@
 //! Plain mode (`mosprobe --plain <file>`): no serde_json on the executed path (Miri stops in itoa 0.4.8,
 //! a dependency of serde_json); the corpus file holds cases separated by a line `====CASE`, files inside a
 //! case by `====FILE <name>`; a one-line summary per case is printed.
-use mos_core::codegen::verif::{set_pass_observer, PassInfo};
+use mos_core::codegen::verif::{max_work_per_pass, set_pass_observer, set_work_cap, PassInfo};
 use mos_core::codegen::{codegen, CodegenContext, CodegenOptions, SymbolData};
 use mos_core::errors::Diagnostics;
 use mos_core::formatting::{format, FormattingOptions};
@@ -361,13 +361,23 @@ fn handle(req: &Value) -> Value {
             ..Default::default()
         };
         let t = tree.clone();
-        match guarded(move || run_codegen(t, options, pass_cap)) {
+        let work_cap = opts.get("work_cap").and_then(|v| v.as_u64()).unwrap_or(0);
+        set_work_cap(work_cap);
+        let outcome = guarded(move || run_codegen(t, options, pass_cap));
+        let work = max_work_per_pass();
+        set_work_cap(0);
+        match outcome {
             Err(p) => {
                 set_pass_observer(None);
-                resp.insert(op.into(), json!({ "panic": p }));
+                if p.to_string().contains("MOS-VERIF work cap exceeded") {
+                    resp.insert(op.into(), json!({ "work_cap_exceeded": work_cap }));
+                } else {
+                    resp.insert(op.into(), json!({ "panic": p, "work": work }));
+                }
             }
             Ok((ctx, diags, log)) => {
                 let mut cj = Map::new();
+                cj.insert("work".into(), json!(work));
                 cj.insert("diags".into(), diags_json(&diags, Some(&tree.code_map)));
                 cj.insert("passes".into(), passes_json(&log));
                 if let Some(ctx) = &ctx {
